@@ -198,14 +198,14 @@ class BaseAllFixedSizeElementLocator
     std::size_t element_count_{};
     std::size_t stride_{};
 
-    BaseAllFixedSizeElementLocator() = default;
-
     constexpr BaseAllFixedSizeElementLocator(std::size_t element_count, std::size_t stride) noexcept
         : element_count_(element_count), stride_(stride)
     {
     }
 
   public:
+    BaseAllFixedSizeElementLocator() = default;
+
     template <class Allocator>
     static constexpr void deallocate(std::size_t, const Allocator&) noexcept
     {
@@ -360,9 +360,11 @@ class ElementLocatorAndFixedSizes
 class IteratorMixedElementLocator
 {
   private:
-    std::size_t* element_addresses_;
+    std::size_t* element_addresses_{};
 
   public:
+    IteratorMixedElementLocator() = default;
+
     explicit IteratorMixedElementLocator(BaseElementLocator& locator)
         : element_addresses_(locator.element_addresses_.data())
     {
